@@ -259,6 +259,7 @@ class HSched(object):
         self.threads = []
         self.on_spawn = None
         self.flag = {}            # tid -> True while the thread is inside a reply sent from the receive path
+        self.draining = False
         self.lock_uids = {}       # site name -> set of distinct lock objects acquired under that name
         self.lock_created = 0     # locks created by scheduled threads during the run
 
@@ -274,13 +275,25 @@ class HSched(object):
 
     def yield_(self, kind, obj=None, pred=None, lock=None):
         tid = self.tid()
-        if tid is None:
+        if tid is None or self.draining:
             return None
         rec = [tid, kind, obj, None, bool(self.flag.get(tid))]
         self.pending[tid] = (rec, pred, lock)
         self._signal(tid)
         self.sems[tid].acquire()
         return rec
+
+    def drain(self):
+        """after a run that ended stuck: let every parked thread go (unscheduled) so that none stays parked while
+        holding a lock the harness does not own; the bench is thrown away afterwards"""
+        self.draining = True
+        for sem in self.sems.values():
+            for _ in range(4):
+                sem.release()
+        for _ in range(4):
+            self.spawned.release()
+        for t in self.threads:
+            t.join(0.5)
 
     def _body(self, tid, fn):
         self.tids[threading.get_ident()] = tid
@@ -606,6 +619,8 @@ class HsBench(object):
             else:
                 s.run(fns)
         finally:
+            if s.stuck:
+                s.drain()
             self.h.sched = None
         return s
 
@@ -632,8 +647,8 @@ def hs_oracle(bench, senders, s):
     every send that returned normally is there exactly once (per thread in program order), a send that raised
     put nothing on the wire, nothing else is there, no torn frame."""
     probs = []
-    if s.stuck:
-        probs.append("stuck: " + s.stuck)
+    if s.stuck and s.stuck.startswith("deadlock"):
+        probs.append("stuck: " + s.stuck)    # (a block the scheduler cannot see is a limit of the tie, not a finding)
     if s.errors:
         probs.append("died: a thread died: %r" % s.errors)
     p = bench.peer()
@@ -731,6 +746,8 @@ def hs_model_check(model, bench, senders, s, peer):
                              "7 nsend[0 ok|1 raise]; 0 = not enabled in the model)" % (i, sched[i], b, a))
                 break
     diffs.extend(lock_identity_diffs(s.lock_uids))
+    if s.stuck and not s.stuck.startswith("deadlock"):
+        diffs.append("unmodelled block: " + s.stuck)
     mw = [term_desc(t) for t in wire]
     rw = []
     for tid, k, data in bench.writes:
